@@ -142,6 +142,21 @@ type TxDesc struct {
 	Note    string                 `json:"note,omitempty"`
 	// ExpectAuthOK: the harness believes the transaction passes authentication (signature, nonce, fee balance).
 	ExpectAuthOK bool `json:"expect_auth_ok"`
+	// Resign re-signs the same transaction (signer, nonce, fee amount, method, body) with another gas limit.
+	Resign func(gas uint64) []byte `json:"-"`
+	// SweepDepth > 0: this is the n-th step of a gas sweep derived from another description.
+	SweepDepth int `json:"sweep_depth,omitempty"`
+}
+
+// WithGas derives the description of the same transaction with another gas limit (nil when it cannot be re-signed).
+func (d *TxDesc) WithGas(gas uint64, depth int) *TxDesc {
+	if d.Resign == nil {
+		return nil
+	}
+	c := *d
+	c.Gas, c.Raw, c.SweepDepth = gas, d.Resign(gas), depth
+	c.Mutated = "gas-sweep"
+	return &c
 }
 
 // TxGen generates transactions against a view, tracking nonces inside the block being built.
@@ -988,6 +1003,9 @@ func (g *TxGen) finish(t *rapid.T, a *Actor, acct *staking.Account, method trans
 	}
 	d.Nonce, d.Gas, d.Fee = nonce, gas, feeAmt
 	d.Raw = SignTx(signer, nonce, &transaction.Fee{Gas: transaction.Gas(gas), Amount: q(feeAmt)}, method, body)
+	d.Resign = func(gas2 uint64) []byte {
+		return SignTx(signer, nonce, &transaction.Fee{Gas: transaction.Gas(gas2), Amount: q(feeAmt)}, method, body)
+	}
 	if d.ExpectAuthOK {
 		g.nonceAdd[a.Addr]++
 	}
